@@ -1,5 +1,5 @@
 #!/usr/bin/env python3
-"""seeded_scratch.py [-j N] [ids or property ids...]
+"""seeded_scratch.py [--benign] [-j N] [ids or property ids...]
 Like seeded_all.py, but every stored seeded change is applied to its own
 scratch worktree of /repo (VSYM_REPO) and the check writes to a scratch
 directory (VSYM_SCRATCH), so several can run side by side and /repo is not
@@ -13,11 +13,14 @@ ENV = dict(os.environ, GOFLAGS="-mod=mod", GOPROXY="off", GOSUMDB="off", GOTOOLC
 EXTRA = {"C09-B": ["C05"], "C09-r2C": ["C05"], "C10-r2C": ["C09"], "C03-r2C": ["C04"], "C19-r2C": ["C05"], "C06-r3A": ["C16"], "C18-r3A": ["C17"]}
 
 
+KIND = "seeded"
+
+
 def one(sid):
-    d = os.path.join(V, "seeded", sid)
+    d = os.path.join(V, KIND, sid)
     meta = json.load(open(os.path.join(d, "meta.json")))
     pid = meta["property"]
-    wt = "/tmp/seedrun-%s" % sid
+    wt = "/tmp/%srun-%s" % (KIND, sid)
     subprocess.run("git -C /repo worktree remove --force %s" % wt, shell=True, capture_output=True)
     subprocess.run("git -C /repo worktree add -q --detach %s HEAD" % wt, shell=True, check=True, capture_output=True)
     out = tempfile.mkdtemp(prefix="vsym-seed-")
@@ -42,15 +45,30 @@ def one(sid):
 
 
 def main():
+    global KIND
     args = sys.argv[1:]
     jobs = 3
+    if args and args[0] == "--benign":
+        # the stored behaviour-preserving changes: every check must stay quiet
+        KIND = "benign"
+        args = args[1:]
     if args and args[0] == "-j":
         jobs = int(args[1])
         args = args[2:]
-    ids = sorted(os.path.basename(x.rstrip("/")) for x in glob.glob(V + "/seeded/*/"))
+    ids = sorted(os.path.basename(x.rstrip("/")) for x in glob.glob(V + "/" + KIND + "/*/"))
     if args:
         ids = [i for i in ids if i in args or i.split("-")[0] in args]
     missed = []
+    if KIND == "benign":
+        loud = []
+        with ThreadPoolExecutor(max_workers=jobs) as ex:
+            for sid, pid, by, res in ex.map(one, ids):
+                bad = by is None or any(rc != 0 for rc, _ in res.values())
+                print(sid, "NOT QUIET" if bad else "quiet", res, flush=True)
+                if bad:
+                    loud.append(sid)
+        print("SUMMARY: %d benign changes, %d not quiet: %s" % (len(ids), len(loud), loud))
+        return
     with ThreadPoolExecutor(max_workers=jobs) as ex:
         for sid, pid, by, res in ex.map(one, ids):
             own = by and pid in by
